@@ -2,7 +2,7 @@
 from dsim.kernel import Bench, wrap_top, Agent
 from dsim.axil_agents import AXILMaster, AXILSlave
 from dsim.axi_agents import AXIMaster, AXISlave, beat_addresses
-from dsim.wb_agents import WBMaster, WBSlave, PortRecorder
+from dsim.wb_agents import WBMaster, WBSlave, PortRecorder, CombSlave
 
 
 def hb(b):
@@ -93,7 +93,10 @@ def run(scn):
                                      read_data=lambda a: sum(hb(a + i) << (8 * i) for i in range(4)), memory=True, ar_with_r=sc.get("ar_with_r", False)))
             store_byte = lambda b_: (sa._rdata(b_ & ~3) >> (8 * (b_ & 3))) & 0xff  # noqa
         else:
-            sa = bench.add(WBSlave(wb, scn["lat"], name="s", init=lambda a: sum(hb(a * 4 + i) << (8 * i) for i in range(4))))
+            if scn.get("comb_slave"):
+                sa = bench.add(CombSlave(top, wb, 12, lambda a: sum(hb(a * 4 + i) << (8 * i) for i in range(4)), scn["comb_slave"]))
+            else:
+                sa = bench.add(WBSlave(wb, scn["lat"], name="s", init=lambda a: sum(hb(a * 4 + i) << (8 * i) for i in range(4))))
             store_byte = lambda b_: (sa.read_word(b_ >> 2) >> (8 * (b_ & 3))) & 0xff  # noqa
     elif fam == "axil2axi":
         mb = axi.AXILiteInterface(data_width=32, address_width=32)
@@ -124,7 +127,10 @@ def run(scn):
         bench = Bench(wrap_top(top), max_cycles=len(ops) * 40 + 300, tail=8, fingerprint=False)
         ma = bench.add(AHBMaster(hbus, ops))
         shift = 0 if p["addressing"] == "word" else lg
-        sa = bench.add(WBSlave(wb, scn["lat"], name="s", init=lambda a, shift=shift, nb=nb: sum(hb((a >> shift) * nb + i) << (8 * i) for i in range(nb))))
+        if scn.get("comb_slave"):
+            sa = bench.add(CombSlave(top, wb, 12, lambda a, shift=shift, nb=nb: sum(hb((a >> shift) * nb + i) << (8 * i) for i in range(nb)), scn["comb_slave"], shift=shift))
+        else:
+            sa = bench.add(WBSlave(wb, scn["lat"], name="s", init=lambda a, shift=shift, nb=nb: sum(hb((a >> shift) * nb + i) << (8 * i) for i in range(nb))))
         sa.key_shift = shift
         store_byte = lambda b_, shift=shift, nb=nb, lg=lg: (sa.read_word((b_ >> lg) << shift) >> (8 * (b_ & (nb - 1)))) & 0xff  # noqa
     if wb_mon_bus is not None:
